@@ -530,7 +530,7 @@ def plan(tier, seed):
         tasks=tasks,
         run=run_task,
         rule="all statement sequences up to the depth bound from the empty world and from pre-built worlds (view family, spent graph, "
-        "written family); non-trivial = history with an op that locks and a release event (backward/clear/del/failing op)",
+        "written family, caller-made read-only view, two independent tensors with `.shape=` statements and a terminal over all live tensors); non-trivial = history with an op that locks and a release event (backward/clear/del/failing op)",
         bounds={w: d for w, d in BOUNDS[tier]},
         assumptions=[
             "live ops are read off the implementation by walking creator.variables and .base from the program's tensors",
